@@ -93,15 +93,19 @@ type backend struct {
 	attached atomic.Int64
 }
 
-func startBackend(cs *caseState, px *proxyRT, id string, port int) (*backend, error) {
+// newBackend binds the listener; the caller sets the options and then calls start.
+func newBackend(cs *caseState, px *proxyRT, id string, port int) (*backend, error) {
 	ln, err := net.Listen("tcp", "127.0.0.1:"+strconv.Itoa(port))
 	if err != nil {
 		return nil, err
 	}
-	b := &backend{id: id, cs: cs, px: px, ln: ln, port: port}
+	return &backend{id: id, cs: cs, px: px, ln: ln, port: port}, nil
+}
+
+func (b *backend) start() {
 	go func() {
 		for {
-			c, err := ln.Accept()
+			c, err := b.ln.Accept()
 			if err != nil {
 				return
 			}
@@ -114,7 +118,6 @@ func startBackend(cs *caseState, px *proxyRT, id string, port int) (*backend, er
 			}()
 		}
 	}()
-	return b, nil
 }
 
 func (b *backend) close() { b.ln.Close() }
